@@ -7,7 +7,7 @@
 use std::f64::consts::PI;
 use std::{fmt, slice, vec};
 
-use itertools::{iproduct, Itertools};
+use itertools::iproduct;
 use nalgebra::Point2;
 use serde::{Deserialize, Serialize};
 
@@ -37,18 +37,12 @@ impl Intersect for MolecularShape2 {
         iproduct!(self.items.iter(), other.items.iter()).any(|(s, o)| s.intersects(o))
     }
     fn area(&self) -> f64 {
-        // TODO Implement an algorithm which takes into account multiple overlaps of circles, this
-        // naive implementation is just a temporary measure.
-        let total_area: f64 = self.items.iter().map(|a| PI * a.radius.powi(2)).sum();
-
-        let naive_overlap: f64 = self
-            .items
-            .iter()
-            .tuple_combinations()
-            .map(|(a1, a2)| Self::circle_overlap(a1, a2))
-            .sum();
-
-        total_area - naive_overlap
+        // The area of the union of the circles is found by integrating around the boundary of the
+        // shape. The boundary is comprised of the arcs of each circle which are not covered by
+        // another circle, so this takes into account any number of overlapping circles.
+        (0..self.items.len())
+            .map(|index| self.exposed_area(index))
+            .sum()
     }
 }
 
@@ -100,10 +94,94 @@ impl fmt::Display for MolecularShape2 {
 }
 
 impl MolecularShape2 {
+    /// The contribution to the area of the shape from the exposed boundary of a circle
+    ///
+    /// This is the integral of (x dy - y dx) / 2 over the arcs of the circle at `index` which are
+    /// not covered by any of the other circles. Summed over all the circles this is the area of
+    /// their union.
+    fn exposed_area(&self, index: usize) -> f64 {
+        let atom = &self.items[index];
+        // The angular intervals of this circle which are covered by another circle
+        let mut covered: Vec<(f64, f64)> = vec![];
+        for (other_index, other) in self.items.iter().enumerate() {
+            if other_index == index {
+                continue;
+            }
+            let distance = nalgebra::distance(&atom.position, &other.position);
+            if distance >= atom.radius + other.radius {
+                // No overlap between the circles
+                continue;
+            }
+            if distance <= other.radius - atom.radius {
+                // This circle is within the other circle. Where the two circles are the same,
+                // only the first is included.
+                if distance <= atom.radius - other.radius && index < other_index {
+                    continue;
+                }
+                return 0.;
+            }
+            if distance <= atom.radius - other.radius {
+                // The other circle is within this circle
+                continue;
+            }
+            let direction = f64::atan2(
+                other.position.y - atom.position.y,
+                other.position.x - atom.position.x,
+            );
+            // The covered interval ends at the intersection points of the two circles. These are
+            // found from the distance to the chord which joins them and half the length of the
+            // chord, where the expression for the chord is the same for both of the circles so
+            // the ends of their arcs meet, even when the circles only just overlap.
+            let to_chord = (distance.powi(2) + atom.radius.powi(2) - other.radius.powi(2))
+                / (2. * distance);
+            let half_chord = f64::sqrt(
+                (atom.radius + other.radius + distance)
+                    * (atom.radius + other.radius - distance)
+                    * (distance + (atom.radius - other.radius))
+                    * (distance - (atom.radius - other.radius)),
+            ) / (2. * distance);
+            let half_width = f64::atan2(half_chord, to_chord);
+            // Intervals start within [0, 2 PI), those passing 2 PI are split in two
+            let start = (direction - half_width).rem_euclid(2. * PI);
+            let end = start + 2. * half_width;
+            if end > 2. * PI {
+                covered.push((start, 2. * PI));
+                covered.push((0., end - 2. * PI));
+            } else {
+                covered.push((start, end));
+            }
+        }
+        if covered.is_empty() {
+            return PI * atom.radius.powi(2);
+        }
+        covered.sort_by(|a, b| a.partial_cmp(b).unwrap());
+
+        let arc_area = |start: f64, end: f64| {
+            0.5 * atom.radius
+                * (atom.radius * (end - start)
+                    + atom.position.x * (end.sin() - start.sin())
+                    - atom.position.y * (end.cos() - start.cos()))
+        };
+        let mut area = 0.;
+        let mut exposed_from = 0.;
+        for (start, end) in covered {
+            if start > exposed_from {
+                area += arc_area(exposed_from, start);
+            }
+            exposed_from = f64::max(exposed_from, end);
+        }
+        if exposed_from < 2. * PI {
+            area += arc_area(exposed_from, 2. * PI);
+        }
+        area
+    }
+
+    #[allow(dead_code)]
     fn overlap_area(r: f64, d: f64) -> f64 {
         r.powi(2) * f64::acos(d / r) - d * f64::sqrt(r.powi(2) - d.powi(2))
     }
 
+    #[allow(dead_code)]
     fn circle_overlap(a1: &Atom2, a2: &Atom2) -> f64 {
         let distance = nalgebra::distance(&a1.position, &a2.position);
         // There is some overlap between the circles which needs to be calculated
